@@ -841,12 +841,17 @@ func (env *Environment) runTasksAsHooks(hooksToTrigger task.Tasks) (errorMap map
 	}
 
 	doneCh := make(chan struct{})
+	// closed if the hooks could not be triggered: the collecting goroutine must not outlive this call,
+	// or it keeps taking the termination events meant for the hooks of later weights and transitions
+	abortCh := make(chan struct{})
 
 	go func() {
 		successfulHooks := make(task.Tasks, 0)
 
 		for {
 			select {
+			case <-abortCh:
+				return
 			case tid := <-timeoutCh:
 				log.WithField("taskId", tid).Debug("incoming hook timeout")
 				thisHook := hooksToTrigger.GetByTaskId(tid)
@@ -957,6 +962,7 @@ func (env *Environment) runTasksAsHooks(hooksToTrigger task.Tasks) (errorMap map
 				delete(hookTimers, h.GetTaskId())
 			}
 		}
+		close(abortCh)
 		return
 	}
 
